@@ -900,7 +900,8 @@ class APIClient:
                 BluetoothGATTNotifyResponse,
                 timeout,
             )
-        except Exception:
+        except BaseException:
+            # Also remove the callback if the call is cancelled
             remove_callback()
             raise
 
